@@ -58,7 +58,7 @@ def plan(tier, seed):
             P.add("wav", name=name, shape=shape, axes=axes,
                   level=pick(rng, [None, None, 1, 2, 3]),
                   dt=pick(rng, ["complex128", "float64", "complex128", "float64", "complex64",
-                                "float32"]), via=pick(rng, ["linop", "linop", "func"]))
+                                "float32", "int64"]), via=pick(rng, ["linop", "linop", "func"]))
     # histories: several operators for the same (shape, wavelet, level) but different axes in
     # one process, in random order - anything the library remembers between calls (shape or
     # slice layouts) must be keyed by all of the parameters
@@ -122,15 +122,21 @@ def run_one(case):
                                  else ""), level, dt.name, case["via"],
                              "short" if any(shape[a] < flen for a in tr) else "long"]))
     wit = dict(case)
-    tol = 1e-9 if dt in (np.float64, np.complex128) else 2e-4
+    tol = 1e-9 if dt in (np.float64, np.complex128) or dt.kind == "i" else 2e-4
     with warnings.catch_warnings():
         warnings.simplefilter("ignore")
         try:
             W = sp.linop.Wavelet(shape, axes=axes, wave_name=name, level=level)
             with structured((sum(case["rs"]) // 3) % 9 if sum(case["rs"]) % 2 else 0):
-                x0_ = crandn(rng, shape, dt)
+                x0_ = crandn(rng, shape, dt if dt.kind != "i" else np.float64)
+            if dt.kind == "i":
+                # real data held in an integer array (counts, labels, raw ADC samples): the
+                # coefficients are not integers - same isometry, inverse and adjoint
+                x0_ = np.round(x0_ * 6).astype(dt)
             x = relayout(x0_, sum(case["rs"]) % 6)   # 1-3: F / T / strided
             mag = [1, 1, 1, 1e-10, 1e8][sum(case["rs"]) % 5]     # the transform is homogeneous
+            if dt.kind == "i":
+                mag = 1
             if mag != 1:
                 x = x * x.dtype.type(mag)
             x0 = x.copy(order="C")
@@ -141,7 +147,7 @@ def run_one(case):
                 c = sp.fwt(x, wave_name=name, axes=axes, level=level)
                 _, slices = sp.wavelet.get_wavelet_shape(shape, name, axes, level)
                 back = sp.iwt(c, shape, slices, wave_name=name, axes=axes, level=level)
-            y = crandn(rng, tuple(W.oshape), dt)
+            y = crandn(rng, tuple(W.oshape), dt if dt.kind != "i" else np.float64)
             if mag != 1:
                 y = y * y.dtype.type(mag)
             WHy = W.H(y)
